@@ -469,6 +469,17 @@ func c08r5(rc *core.RC) {
 			if blk != nil {
 				walk(blk, idx+1)
 			}
+			// and conversely: every frame entry recorded its pointer (the push dominates recursiveLevel++)
+			var inc ast.Node
+			ast.Inspect(cc, func(n ast.Node) bool {
+				if isLevelInc(n, token.INC) {
+					inc = n
+				}
+				return true
+			})
+			if inc != nil {
+				rc.Check(cf.NodeBefore(app, inc), fmt.Sprintf("%s.Run/case %s/frame-entry-recorded", vm, op), app.Pos(), "the SeenPtr push is executed on every path that enters the frame (it dominates recursiveLevel++); a conditional push with an unconditional or differently conditioned pop removes entries that belong to outer frames")
+			}
 			if leak.IsValid() {
 				rc.Bad(key, leak, "after ctx.SeenPtr was extended there is a path that leaves the case without entering a frame (no recursiveLevel++): nothing pops the entry, later pops remove the wrong ones, and an acyclic value is reported as a cycle once detection is active")
 			} else {
@@ -504,6 +515,19 @@ func c08r5(rc *core.RC) {
 				return true
 			})
 			rc.Check(dec && pop, key, cc.Pos(), "the frame pop decrements recursiveLevel and removes the last SeenPtr entry (dec=%v pop=%v)", dec, pop)
+			// both are unconditional: direct statements of the clause
+			direct := 0
+			for _, st := range cc.Body {
+				if isLevelInc(st, token.DEC) {
+					direct++
+				}
+				if as, ok := st.(*ast.AssignStmt); ok && len(as.Lhs) == 1 {
+					if f := core.FieldOf(info, as.Lhs[0]); f != nil && f.Name() == "SeenPtr" {
+						direct++
+					}
+				}
+			}
+			rc.Check(direct == 2, key+"/unconditional", cc.Pos(), "recursiveLevel-- and the SeenPtr pop are top-level statements of the case (every frame exit undoes exactly what the frame entry did)")
 		}
 	}
 }
